@@ -482,15 +482,15 @@ def _c3_merge(seqs: List[List[str]]) -> List[str]:
 def walk_no_nested(node: ast.AST, include_lambda: bool = True) -> Iterator[ast.AST]:
     """ast.walk that does not descend into nested function/class definitions
     (the root itself is descended into)."""
-    stack = list(ast.iter_child_nodes(node))
+    stack = list(reversed(list(ast.iter_child_nodes(node))))
     while stack:
         n = stack.pop()
-        yield n
+        yield n  # pre-order, children in source order
         if isinstance(n, (ast.FunctionDef, ast.AsyncFunctionDef, ast.ClassDef)):
             continue
         if isinstance(n, ast.Lambda) and not include_lambda:
             continue
-        stack.extend(ast.iter_child_nodes(n))
+        stack.extend(reversed(list(ast.iter_child_nodes(n))))
 
 
 def unparse(n: ast.AST) -> str:
